@@ -377,6 +377,16 @@ func cmdCheck(args []string) int {
 	knownHit := map[string]bool{}
 	funcsSeen := map[string]bool{}
 	var samples []interface{}
+	// a failed frame/anchor/precondition obligation poisons the rest of its path on purpose; the vacuity guards that then
+	// fail are consequences: they are reported only for functions where nothing else failed
+	otherFailure := map[string]bool{}
+	for _, o := range obls {
+		if o.Status != "discharged" && o.Kind != "vacuity" {
+			otherFailure[o.Func] = true
+		}
+	}
+	consequences := 0
+	replays := 0
 	for _, o := range obls {
 		funcsSeen[o.Func] = true
 		solverTime += o.Time
@@ -407,9 +417,14 @@ func cmdCheck(args []string) int {
 		if matched {
 			continue
 		}
+		if o.Kind == "vacuity" && otherFailure[o.Func] {
+			consequences++
+			continue
+		}
 		os.MkdirAll(replayDir, 0o755)
 		rp := filepath.Join(replayDir, sanitize(o.ID)+".json")
-		noInput := writeReplay(e, o, rp, *repo, *verif)
+		replays++
+		noInput := writeReplay(e, o, rp, *repo, *verif, replays <= 8)
 		line := fmt.Sprintf("VIOLATION property=%s replay=%s", *prop, rp)
 		if noInput {
 			line += " no-failing-input-found"
@@ -462,6 +477,9 @@ func cmdCheck(args []string) int {
 	for _, v := range violations {
 		fmt.Println(v)
 	}
+	if consequences > 0 {
+		fmt.Printf("(%d vacuity guards failed as a consequence of the failed obligations above: the failed assertion is assumed on the rest of its path)\n", consequences)
+	}
 	if len(violations) > 0 {
 		return 1
 	}
@@ -495,7 +513,7 @@ func sanitize(s string) string {
 
 // writeReplay stores the failed obligation and tries to replay its counterexample on the real code.
 // Returns true when no failing input could be confirmed.
-func writeReplay(e *Engine, o *Obligation, path, repo, verif string) bool {
+func writeReplay(e *Engine, o *Obligation, path, repo, verif string, doReplay bool) bool {
 	rec := map[string]interface{}{
 		"obligation": o.ID, "function": o.Func, "kind": o.Kind, "clause": o.Spec, "where": o.Where, "path_blocks": o.Path,
 		"solver": o.Solver, "solver_detail": o.Detail, "goal": truncate(o.Goal, 2000),
@@ -507,7 +525,9 @@ func writeReplay(e *Engine, o *Obligation, path, repo, verif string) bool {
 	} else {
 		rec["solver_output"] = o.Detail
 	}
-	if res, ok := tryReplay(e, o, repo, verif); ok {
+	if !doReplay {
+		rec["replay"] = "skipped: more than 8 failed obligations in this run; the first 8 were replayed"
+	} else if res, ok := tryReplay(e, o, repo, verif); ok {
 		rec["replay"] = res
 		if res["confirmed"] == true {
 			noInput = false
